@@ -288,6 +288,16 @@ func runOverlapHistory(t *testing.T, c *caseWriter, tags string, seedv int64) {
 				}
 				n := 1 + r.Intn(2) // retransmissions overlap as well
 				for k := 0; k < n; k++ {
+					// a second packet of the same client in the burst is either a true retransmission (the same bytes) or a
+					// different request under its own transaction id: replies echo only xid, chaddr and the broadcast flag, so
+					// two different requests sharing all three could not be told apart when their handlers finish out of order
+					if k > 0 && r.Intn(2) == 0 {
+						pkts = append(pkts, pkts[len(pkts)-1])
+						who = append(who, cl)
+						continue
+					}
+					saved := cl.xid
+					cl.xid += uint32(k)
 					switch {
 					case cl.leased == 0 || r.Intn(3) == 0:
 						pkts = append(pkts, cl.selecting(ip, cfg.selfIP, uint16(r.Intn(2))<<15))
@@ -297,6 +307,7 @@ func runOverlapHistory(t *testing.T, c *caseWriter, tags string, seedv int64) {
 						pkts = append(pkts, cl.renewing(ip, bcU, 0))
 					}
 					who = append(who, cl)
+					cl.xid = saved
 				}
 			}
 			r.Shuffle(len(pkts), func(i, j int) { pkts[i], pkts[j] = pkts[j], pkts[i]; who[i], who[j] = who[j], who[i] })
